@@ -324,6 +324,7 @@ type MonC17 struct {
 	ticks      []int                        // per node: own ticks
 	lastHeard  []map[uint64]int             // per leader: tick stamp of the last message processed from each peer
 	leaderFrom []int                        // tick stamp at which the node became leader of its current term (-1: not leader)
+	xferAt     []int                        // per leader: tick stamp of the last leadership-transfer request it acted on (-1: none); see known finding KF-3
 	shared     bool
 }
 
@@ -332,11 +333,12 @@ func (m *MonC17) Prop() string { return "C17" }
 func (m *MonC17) Init(w *World) {
 	nn := len(w.Nodes)
 	m.delivered = map[candKey]map[uint64]bool{}
-	m.sinceLead, m.ticks, m.leaderFrom = make([]int, nn), make([]int, nn), make([]int, nn)
+	m.sinceLead, m.ticks, m.leaderFrom, m.xferAt = make([]int, nn), make([]int, nn), make([]int, nn), make([]int, nn)
 	m.lastHeard = make([]map[uint64]int, nn)
 	for i := range m.lastHeard {
 		m.lastHeard[i] = map[uint64]int{}
 		m.leaderFrom[i] = -1
+		m.xferAt[i] = -1
 		m.sinceLead[i] = 1 << 20
 	}
 }
@@ -366,6 +368,7 @@ func (m *MonC17) own() {
 	}
 	m.delivered, m.lastHeard = d, lh
 	m.sinceLead, m.ticks, m.leaderFrom = append([]int(nil), m.sinceLead...), append([]int(nil), m.ticks...), append([]int(nil), m.leaderFrom...)
+	m.xferAt = append([]int(nil), m.xferAt...)
 	m.shared = false
 }
 func (m *MonC17) History(b []byte) []byte {
@@ -395,6 +398,11 @@ func (m *MonC17) History(b []byte) []byte {
 		// only differences matter
 		b = binary.AppendVarint(b, int64(min(m.sinceLead[i], 1000)))
 		b = binary.AppendVarint(b, int64(m.leaderFrom[i]-m.ticks[i]))
+		if m.xferAt[i] >= 0 {
+			b = binary.AppendVarint(b, int64(m.xferAt[i]-m.ticks[i]))
+		} else {
+			b = append(b, 0xfc)
+		}
 		var ps []uint64
 		for p := range m.lastHeard[i] {
 			ps = append(ps, p)
@@ -421,6 +429,7 @@ func (m *MonC17) OnEvent(w *World, rec *StepRec) []*Violation {
 	if rec.Restarted {
 		m.sinceLead[i] = 1 << 20
 		m.leaderFrom[i] = -1
+		m.xferAt[i] = -1
 		m.lastHeard[i] = map[uint64]int{}
 		return nil
 	}
@@ -489,7 +498,12 @@ func (m *MonC17) OnEvent(w *World, rec *StepRec) []*Violation {
 	if post.State == raft.StateLeader {
 		if m.leaderFrom[i] < 0 || pre.State != raft.StateLeader || pre.Term != post.Term {
 			m.leaderFrom[i] = m.ticks[i]
+			m.xferAt[i] = -1
 			m.lastHeard[i] = map[uint64]int{}
+		}
+		if post.LeadTransferee != 0 && post.LeadTransferee != pre.LeadTransferee {
+			// the leader acted on a transfer request: raft.go resets electionElapsed there
+			m.xferAt[i] = m.ticks[i]
 		}
 		if d != nil && d.GetTerm() == post.Term && d.GetFrom() != n.ID && (d.GetType() == pb.MsgAppResp || d.GetType() == pb.MsgHeartbeatResp) {
 			m.lastHeard[i][d.GetFrom()] = m.ticks[i]
@@ -517,12 +531,17 @@ func (m *MonC17) OnEvent(w *World, rec *StepRec) []*Violation {
 					best = t
 				}
 			}
-			if best >= 0 && now-best >= 2*n.Cfg.ElectionTick {
+			if best >= 0 && now-best >= 2*n.Cfg.ElectionTick && m.xferAt[i] > best && now-m.xferAt[i] < 2*n.Cfg.ElectionTick {
+				// signature of known finding KF-3: every transfer request the leader acts on restarts the
+				// CheckQuorum period; counted from the last such request the leader is still within bounds
+				out = append(out, &Violation{"C17", "checkquorum-stepdown-after-transfer", fmt.Sprintf("leader %d (term %d) is still leader %d of its own ticks after it last heard from a quorum (election timeout %d); it acted on a leadership-transfer request %d ticks ago, which reset its CheckQuorum timer", n.ID, post.Term, now-best, n.Cfg.ElectionTick, now-m.xferAt[i])})
+			} else if best >= 0 && now-best >= 2*n.Cfg.ElectionTick {
 				out = append(out, &Violation{"C17", "checkquorum-stepdown", fmt.Sprintf("leader %d (term %d) is still leader %d of its own ticks after it last heard from a quorum (election timeout %d)", n.ID, post.Term, now-best, n.Cfg.ElectionTick)})
 			}
 		}
 	} else {
 		m.leaderFrom[i] = -1
+		m.xferAt[i] = -1
 	}
 	return out
 }
